@@ -967,6 +967,9 @@ def gen_config(rng, world, dims):
             cfg["userdata"]["behave.reporter.junit.show_timestamp"] = rng.choice(["true", "false"])
         if rng.random() < 0.3:
             cfg["userdata"]["behave.reporter.junit.show_hostname"] = rng.choice(["true", "false"])
+        for sw in ("show_multiline", "show_scenarios", "show_tags", "show_skipped_always"):
+            if rng.random() < 0.2:
+                cfg["userdata"]["behave.reporter.junit." + sw] = rng.choice(["true", "false"])
     if rng.random() < dims.get("p_summary_format", 0.15):
         cfg["userdata"]["behave.reporter.summary.output_format"] = rng.choice(["v1", "v1A", "v1B", "v2", "v3"])
     # paths
@@ -979,6 +982,9 @@ def gen_config(rng, world, dims):
             nlines = world["files"][f["path"]].count("\n")
             if r < 0.2:
                 paths.append(f["path"])
+            elif r < 0.35:
+                # systematic sweep: successive worlds of a worker address successive lines (0 .. past EOF)
+                paths.append("%s:%d" % (f["path"], (world["seed"] // 16) % (nlines + 4)))
             elif r < 0.9:
                 for _ in range(rng.randint(1, 3)):
                     ln = rng.randint(0, nlines + 2)
